@@ -1,6 +1,6 @@
 (** C01 - Replaying the bus reproduces the source view: no lost or phantom change.
     Only statements; every proof is [exact <lemma of Proofs/>]. *)
-From Hermes Require Import Model.Objects Model.Server Proofs.Objects Proofs.Server.
+From Hermes Require Import Model.Objects Model.Server Proofs.Objects Proofs.Server Proofs.ServerRestart.
 
 (** One cycle, any configuration, any pair (published cache, new view), any order the
     implementation happens to choose for 'modified' events: replaying the emitted
@@ -33,6 +33,36 @@ Theorem C01_complete_poll_equals_view : forall c st B isync view refused hint st
   track c B (SPoll isync false view refused hint) st' tr = Some (vis c view).
 Proof. exact sstep_complete. Qed.
 Print Assumptions C01_complete_poll_equals_view.
+
+(** With restarts: the cache files hold no secret, so a restarted server agrees with what it
+    had published on every attribute but the secret ones; that agreement (bus state = published
+    state, secrets apart) is an invariant of EVERY history - polls, refusals, open failures,
+    initsync requests and restarts in any order ... *)
+Theorem C01_history_with_restarts : forall c steps B st,
+  cfg_ok c -> inv2 c B st -> let '(B', st') := track_run c B st steps in inv2 c B' st'.
+Proof. exact run_inv2. Qed.
+Print Assumptions C01_history_with_restarts.
+
+(** ... and after any poll all of whose sends were accepted the replayed bus equals the view
+    on every non-secret attribute. *)
+Theorem C01_complete_poll_after_anything : forall c st b isync view refused hint st' tr,
+  cfg_ok c -> inv2 c (Some b) st ->
+  sstep_run c st (SPoll isync false view refused hint) = (st', tr) -> no_refusal tr = true ->
+  nsec c (replay (base_events tr) b) = nsec c (vis c view).
+Proof. exact complete_poll_after_anything. Qed.
+Print Assumptions C01_complete_poll_after_anything.
+
+(** The projection cannot be dropped (finding F13): a secret attribute that disappears from the
+    source while the server is down is never withdrawn.  Type 1 with secret attribute 3: the
+    published object holds it; restart (the reloaded cache has no secret); the new view no
+    longer has it; the poll is silent and the bus state keeps the secret. *)
+Definition f13_c : cfg := [TCfg 1 [] [] [3%N] [] false false].
+Definition f13_mem : world := {[ (1%N, 1%Z) := {[ 1%N := VInt 1; 3%N := VInt 7 ]} ]}.
+Definition f13_view : world := {[ (1%N, 1%Z) := {[ 1%N := VInt 1 ]} ]}.
+Example C01_secret_removed_while_down_refuted :
+  gen_events_h f13_c [] f13_view (jsn f13_c f13_mem) = [] /\
+  vis f13_c f13_mem !! (1%N, 1%Z) <> vis f13_c f13_view !! (1%N, 1%Z).
+Proof. split; [vm_compute; reflexivity|]. vm_compute. discriminate. Qed.
 
 (** Events about distinct objects commute, so the theorems hold for whatever order
     the implementation emits one type's 'modified' events in. *)
